@@ -86,8 +86,29 @@ let enber_s (bs, r) =
   | None -> "OK " ^ hex_of_bytes bs
   | Some e -> Printf.sprintf "ERR:%s %s" (eerr_s e) (hex_of_bytes bs)
 
+(* spec side: a forest in prefix notation
+     P <tag> <hexbody>  |  C <tag> <definite 0/1> <number of children> <children...> *)
+let rec parse_tree = function
+  | "P" :: tag :: body :: rest -> (Prim (cz_of_string tag, bytes_of_hex body), rest)
+  | "C" :: tag :: d :: n :: rest ->
+      let (ch, rest') = parse_n (int_of_string n) rest in
+      (Cons (cz_of_string tag, d = "1", ch), rest')
+  | _ -> failwith "tree syntax"
+and parse_n n toks =
+  if n = 0 then ([], toks)
+  else let (t, r) = parse_tree toks in let (ts, r') = parse_n (n - 1) r in (t :: ts, r')
+
+let rec parse_forest toks = match toks with [] -> [] | _ -> let (t, r) = parse_tree toks in t :: parse_forest r
+
+let node_s (((off, tag), hl), cl) = Printf.sprintf "%s:%s:%s:%s" (zs off) (zs tag) (zs hl) (zs cl)
+
 let dispatch cmd args =
   match cmd, args with
+  | "spec_ser", toks -> Some (hex_of_bytes (ser_forest (parse_forest toks)))
+  | "spec_nodes", toks ->
+      (match nodes_forest (parse_forest toks) Z0 with
+       | [] -> Some "-"
+       | ns -> Some (String.concat "," (List.map node_s ns)))
   | "unber", [h] -> let (ls, x) = unber (bytes_of_hex h) in Some (exit_s x ^ " " ^ text_s ls)
   | "xxber", [h] -> Some (enber_s (xxber (bytes_of_hex h)))
   | _ -> None
